@@ -70,6 +70,8 @@ def recorder_sites(model):
         for ci in mi.classes.values():
             funcs.extend(ci.all_defs)
         for fi in funcs:
+            if getattr(fi, 'recording_helper', False):
+                continue        # expanded into its callers by Model._inline_recording_helpers
             for n in walk_no_nested(fi.node):
                 if isinstance(n, ast.Call) and isinstance(n.func, ast.Attribute) and n.func.attr == 'pushforward':
                     recv = dotted_name(n.func.value)
@@ -127,18 +129,132 @@ def forward_arity(model, eff, opname):
     return 1, None
 
 
+def _concat_parts(e):
+    """flatten a string-building expression into parts: str constants and sub-expressions"""
+    if isinstance(e, ast.BinOp) and isinstance(e.op, ast.Add):
+        return _concat_parts(e.left) + _concat_parts(e.right)
+    if isinstance(e, ast.JoinedStr):
+        out = []
+        for v in e.values:
+            out.extend(_concat_parts(v.value if isinstance(v, ast.FormattedValue) else v))
+        return out
+    if isinstance(e, ast.BinOp) and isinstance(e.op, ast.Mod) and isinstance(e.left, ast.Constant) and isinstance(e.left.value, str):
+        pieces = e.left.value.split('%s')
+        vals = list(e.right.elts) if isinstance(e.right, ast.Tuple) else [e.right]
+        out = []
+        for i, pc in enumerate(pieces):
+            out.append(ast.Constant(pc))
+            if i < len(vals) and i < len(pieces) - 1:
+                out.append(vals[i])
+        return out
+    return [e]
+
+
+def _segments(e):
+    """list-building expression -> [('elem'|'star', text)]; None if not a list display / concatenation"""
+    if isinstance(e, ast.BinOp) and isinstance(e.op, ast.Add):
+        a, b = _segments(e.left), _segments(e.right)
+        return None if a is None or b is None else a + b
+    if isinstance(e, (ast.List, ast.Tuple)):
+        return [('star', norm(x.value)) if isinstance(x, ast.Starred) else ('elem', norm(x)) for x in e.elts]
+    if isinstance(e, ast.Call) and isinstance(e.func, ast.Name) and e.func.id in ('list', 'tuple') and len(e.args) == 1:
+        return [('star', norm(e.args[0]))]
+    if isinstance(e, ast.Name):
+        return [('star', e.id)]
+    return None
+
+
 def dispatch_shape(model):
-    """check the dispatch expression of Function.pullback and return its shape:
-    how positional arguments and `out` are assembled."""
+    """check the dispatch expression of Function.pullback structurally and return its shape:
+      name_from_func  the pullback name is derived from the recorded callable's __name__
+      pb_prefix       ... by prefixing 'pb_' (in Function.pullback or a module-level helper it calls with that name)
+      single / multi  positional arguments = [node adjoint(s)] + recorded arguments + [node value(s)]
+      out_kw          the parents' adjoints are passed as keyword `out`
+      fkwargs         the recorded keyword arguments are forwarded
+      call            the looked-up function is called with exactly these positionals/keywords"""
     fi = model.func(TRACER, 'Function.pullback')
-    src = norm(fi.node)
+    node = fi.node
+    node_param = fi.params[1] if len(fi.params) > 1 and fi.params[0] in ('cls', 'self') else fi.params[0]
+    F = node_param
+    # names holding <F>.func.__name__
+    name_vars = set()
+    for st in walk_no_nested(node):
+        if isinstance(st, ast.Assign) and len(st.targets) == 1 and isinstance(st.targets[0], ast.Name) \
+                and norm(st.value) == '%s.func.__name__' % F:
+            name_vars.add(st.targets[0].id)
+
+    def is_name_expr(e):
+        return (isinstance(e, ast.Name) and e.id in name_vars) or norm(e) == '%s.func.__name__' % F
+
+    def has_prefix(fn_node, pred):
+        for e in ast.walk(fn_node):
+            if isinstance(e, (ast.BinOp, ast.JoinedStr)):
+                parts = _concat_parts(e)
+                for a, b in zip(parts, parts[1:]):
+                    if isinstance(a, ast.Constant) and isinstance(a.value, str) and a.value.endswith('pb_') and pred(b):
+                        return True
+        return False
+
+    pb_prefix = has_prefix(node, is_name_expr)
+    if not pb_prefix:
+        # helper in the same module called with the name
+        mi = model.module(TRACER)
+        for c in ast.walk(node):
+            if isinstance(c, ast.Call) and isinstance(c.func, ast.Name) and c.func.id in mi.functions:
+                h = mi.functions[c.func.id]
+                for i, a in enumerate(c.args):
+                    if is_name_expr(a) and i < len(h.params):
+                        pn = h.params[i]
+                        if has_prefix(h.node, lambda b, pn=pn: isinstance(b, ast.Name) and b.id == pn):
+                            pb_prefix = True
+    single = multi = False
+    arg_lists = set()
+    for st in walk_no_nested(node):
+        if isinstance(st, ast.Assign) and len(st.targets) == 1 and isinstance(st.targets[0], ast.Name):
+            seg = _segments(st.value)
+            if seg and len(seg) == 3 and seg[1][0] == 'star':
+                if seg[0] == ('elem', F + '.xbar') and seg[2] == ('elem', F + '.x'):
+                    single = True
+                    arg_lists.add(st.targets[0].id)
+                if seg[0] == ('star', F + '.xbar') and seg[2] == ('star', F + '.x'):
+                    multi = True
+                    arg_lists.add(st.targets[0].id)
+    out_kw = fkwargs = call = False
+    dicts = {}
+    for st in walk_no_nested(node):
+        if isinstance(st, ast.Assign) and len(st.targets) == 1 and isinstance(st.targets[0], ast.Name) and isinstance(st.value, ast.Dict):
+            dicts[st.targets[0].id] = st.value
+    for c in walk_no_nested(node):
+        if not (isinstance(c, ast.Call) and isinstance(c.func, ast.Name)):
+            continue
+        if not (len(c.args) == 1 and isinstance(c.args[0], ast.Starred) and isinstance(c.args[0].value, ast.Name)
+                and c.args[0].value.id in arg_lists):
+            continue
+        call = True
+        for kw in c.keywords:
+            if kw.arg == 'out':
+                out_kw = True
+            elif kw.arg is None:
+                if norm(kw.value) == F + '.kwargs':
+                    fkwargs = True
+                elif isinstance(kw.value, ast.Name) and kw.value.id in dicts:
+                    d = dicts[kw.value.id]
+                    for k_, v_ in zip(d.keys, d.values):
+                        if k_ is None and norm(v_) == F + '.kwargs':
+                            fkwargs = True
+                        if isinstance(k_, ast.Constant) and k_.value == 'out':
+                            out_kw = True
+                    for u in walk_no_nested(node):
+                        if isinstance(u, ast.Call) and isinstance(u.func, ast.Attribute) and u.func.attr == 'update' \
+                                and norm(u.func.value) == kw.value.id and u.args and norm(u.args[0]) == F + '.kwargs':
+                            fkwargs = True
     facts = {
-        'name_from_func': "func_name = F.func.__name__" in src,
-        'pb_prefix': ".pb_' + func_name" in src or '.pb_" + func_name' in src,
-        'single': "args = [F.xbar] + args + [F.x]" in src,
-        'multi': "args = list(F.xbar) + args + list(F.x)" in src,
-        'out_kw': "kwargs = {'out': list(argsbar)}" in src,
-        'fkwargs': "kwargs.update(F.kwargs)" in src,
-        'call': "f(*args, **kwargs)" in src,
+        'name_from_func': bool(name_vars) or pb_prefix,
+        'pb_prefix': pb_prefix,
+        'single': single,
+        'multi': multi,
+        'out_kw': out_kw,
+        'fkwargs': fkwargs,
+        'call': call,
     }
     return fi, facts
